@@ -320,7 +320,9 @@ def run(ctx, extra_defs=()):
            any(model.strip_targs(r).endswith('thread_pool::job_id_') for r in ps.subtree_refs(d['init']))]
     rets = [r for r in ps.returns() if ps.ret_value(r) is not None]
     ctx.check(len(idv) == 1 and pb and idv[0] in ps.subtree_refs(pb[0]) and all(ps.ref_of(ps.ret_value(r)) == idv[0] for r in rets) and
-              bool(q.incdec_of_field(ps, 'thread_pool::job_id_', ('++',))), R7, 'post:returns-enqueued-id', 'post does not return the id under which the job was queued', ps.where)
+              (bool(q.incdec_of_field(ps, 'thread_pool::job_id_', ('++',))) or
+               any(ps.N(w_)['k'] in ('BinaryOperator', 'CompoundAssignOperator') and any(model.strip_targs(x).endswith('thread_pool::job_id_') for x in ps.subtree_refs(ps.N(w_)['ch'][1]) or (['thread_pool::job_id_'] if ps.N(w_)['k'] == 'CompoundAssignOperator' else [])) and
+                   any(ps.N(j).get('op') in ('+', '+=') for j in ps.walk(w_)) for w_ in q.field_writes(ps, 'thread_pool::job_id_'))), R7, 'post:returns-enqueued-id', 'post does not return the id under which the job was queued', ps.where)
     jobp = q.param_by_index(ps, 0)
     ctx.check(pb and jobp in ps.subtree_refs(pb[0]), R7, 'post:enqueues-the-job', 'post enqueues something else', ps.where)
     cnl = P.fn(TP + '::cancel')
@@ -516,7 +518,23 @@ def run(ctx, extra_defs=()):
             okc14 = not q.reaches(ac, direct[0], so[0])
             why14 = 'after handing on the error the adapter goes on to SO_ERROR and calls the handler again'
     ctx.check(okc14, R14, 'async_connector:error-of-the-wait-handed-on-except-select_failed', why14, ac.where)
-    ctx.floor(R14, 2)
+    # cancelling a descriptor makes the reactor forget it too
+    cans = [g for g in P.fns.values() if 'io_event_canceler::operator()' in g.id and g.body is not None]
+    ctx.require(len(cans) == 1, 'C17.R14: io_event_canceler::operator() not found')
+    cn_ = cans[0]
+    rm_ = [i for i in cn_.calls() if (cn_.bcallee(i) or '') == 'booster::aio::reactor::remove']
+    okr = len(rm_) == 1 and q.always_before_exit(cn_, rm_)
+    if len(rm_) == 1 and not okr:
+        # skipping the reactor for a descriptor that is not armed is fine - but only if "armed" is what the record said before it was cleared
+        CE = 'io_data::current_event'
+        zero_w = [w_ for w_ in q.field_writes(cn_, CE) if cn_.N(w_)['k'] == 'BinaryOperator' and cn_.const_value(cn_.N(w_)['ch'][1]) == 0]
+        atoms = [a_ for a_ in cn_.all_nodes() if cn_.N(a_)['k'] == 'BinaryOperator' and cn_.N(a_).get('op') in ('!=', '==') and any(model.strip_targs(x).endswith(CE) for x in cn_.subtree_refs(a_)) and cn_.point_of(a_) is not None]
+        g_un = cn_.gate_edges(lambda atom, pol: cn_.N(atom)['k'] == 'BinaryOperator' and cn_.N(atom).get('op') in ('!=', '==') and any(model.strip_targs(x).endswith(CE) for x in cn_.subtree_refs(atom)) and
+                              cn_.const_value(cn_.N(atom)['ch'][1]) == 0 and pol is (cn_.N(atom)['op'] == '=='))
+        reach = cn_.reachable_blocks(cut_edges=g_un, cut_blocks=[cn_.point_of(rm_[0])[0]])
+        okr = bool(g_un) and cn_.exit not in reach and bool(atoms) and all(not q.reaches(cn_, w_, a_) for w_ in zero_w for a_ in atoms)
+    ctx.check(okr, R14, 'io_event_canceler:reactor-forgets-the-descriptor', 'a cancelled descriptor stays registered in the reactor (the next connection that gets the same number is never armed)', cn_.where)
+    ctx.floor(R14, 3)
 
     # ---- R8 wake after enqueue
     wake_entries = [(g, 'post#%d' % k) for k, g in enumerate(sorted(P.by_bname.get(EL + '::post', []), key=lambda g: g.id))]
